@@ -809,6 +809,50 @@ theorem selectAltT_default (attrs : List (String × String)) (alts : List (Optio
     simp only [selectAltT, hb, Bool.false_eq_true, if_false]
     exact ih (fun c hc => hall c (List.mem_cons_of_mem _ hc))
 
+
+/-- **C07, type alternatives with inherited attributes.**  First match again, where an alternative
+    applies when its test holds on the own attributes or on the inherited attributes overridden by the
+    own ones. -/
+theorem selectAltI_first_match (own inh : List (String × String)) (alts : List (Option Test × Nat))
+    (dflt : Nat) :
+    selectAltI own inh alts dflt = ((alts.find? (altHoldsI own inh)).map (·.2)).getD dflt := by
+  induction alts with
+  | nil => rfl
+  | cons a rest ih =>
+    unfold selectAltI
+    cases hh : altHoldsI own inh a <;> simp [List.find?, hh, ih]
+
+/-- An alternative naming ANY type (the declared type included) shadows every later alternative. -/
+theorem selectAltI_position (own inh : List (String × String)) (pre : List (Option Test × Nat))
+    (a : Option Test × Nat) (post : List (Option Test × Nat)) (dflt : Nat)
+    (hpre : ∀ b ∈ pre, altHoldsI own inh b = false) (ha : altHoldsI own inh a = true) :
+    selectAltI own inh (pre ++ a :: post) dflt = a.2 := by
+  induction pre with
+  | nil => simp [selectAltI, ha]
+  | cons b rest ih =>
+    have hb := hpre b (List.mem_cons_self ..)
+    simp only [List.cons_append, selectAltI, hb, Bool.false_eq_true, if_false]
+    exact ih (fun c hc => hpre c (List.mem_cons_of_mem _ hc))
+
+/-- Without inherited attributes the two selections coincide. -/
+theorem selectAltI_no_inherited (own : List (String × String)) (alts : List (Option Test × Nat))
+    (dflt : Nat) : selectAltI own [] alts dflt = selectAltT own alts dflt := by
+  induction alts with
+  | nil => rfl
+  | cons a rest ih => simp [selectAltI, selectAltT, altHoldsI, ih]
+
+/-- An own attribute overrides an inherited one of the same name. -/
+theorem attrVal_own_overrides (own inh : List (String × String)) (a w : String)
+    (ho : attrVal own a = some w) : attrVal (own ++ inh) a = some w := by
+  induction own with
+  | nil => simp [attrVal] at ho
+  | cons p rest ih =>
+    obtain ⟨k, v⟩ := p
+    simp only [List.cons_append, attrVal] at ho ⊢
+    by_cases hk : (k == a) = true
+    · simp [hk] at ho ⊢; exact ho
+    · simp [hk] at ho ⊢; exact ih ho
+
 /-- A missing attribute makes `=` AND `!=` false (general comparison with the empty sequence), so
     `not(@a = 'v')` holds while `@a != 'v'` does not. -/
 theorem evalTest_missing (attrs : List (String × String)) (a v : String) (hm : attrVal attrs a = none) :
@@ -982,6 +1026,9 @@ example : substXsiErrs .pinned 4 hier cs els 0 1 { xsi := .named 1, variant := 1
 example : substXsiErrs .pinned 4 hier cs els 0 1 { xsi := .named 2, variant := 2 } = some [.headBlocked, .abstractType] := by decide
 example : substXsiErrs .pinned 4 hier cs els 0 1 { xsi := .named 3, variant := 3 } = some [.notDerived, .notDerived, .content] := by decide
 example : dynContextErrs .pinned 4 hier els[0] els[1] (.named 1) = [] := by decide
+/-- the declared type (0) named by the first alternative shadows the later one; an inherited k is seen -/
+example : selectAltI [("k", "a")] [("j", "1")] [(some (.eq "k" "a"), 0), (some (.has "k"), 6)] 0 = 0 := by decide
+example : selectAltI [] [("k", "a")] [(some (.eq "k" "b"), 5), (some (.has "k"), 6)] 0 = 6 := by decide
 end Demo
 
 end XsVerif.Props.C07
